@@ -525,6 +525,10 @@ impl Scenario for ProgressReal {
         }
         spec = with(&spec, "n_collect", json!(pu(&spec, "n_collect").max(4)));
         spec = with(&spec, "seed", json!(g.range(0, 1u64 << 40).to_string()));
+        // "from the same sampler state": 1 run in 3 the sampler has already run before (plain run(a, b))
+        if g.bool(1, 3) {
+            spec = with(&spec, "prior", json!([g.usize(1, 4), g.usize(0, 3)]));
+        }
         let nc = pus(&spec, "n_chains");
         json!({"spec": spec, "sim": gen_sim(g, nc + 2, true)})
     }
@@ -560,6 +564,7 @@ impl Scenario for ProgressReal {
         o.nontrivial = rep.context_switches >= 2 || fam == "HMC";
         o.absorb_counters(&rep.counters);
         o.count(&format!("probe_kind_{}", spec.kind), 1);
+        o.count("probe_sampler_had_run_before", spec.prior.is_some() as u64);
         o.count("probe_nuts_more_chains_than_bars", (fam == "NUTS" && spec.n_chains > 5) as u64);
         if want_sample {
             o.sample = Some(report_json(&rep));
@@ -611,7 +616,7 @@ impl Scenario for ProgressReal {
         out
     }
     fn rule(&self) -> &'static str {
-        "real MH/Gibbs/HMC/NUTS samplers; the 14 (sampler, element type, backend) kinds are visited in turn by run index; run_progress on simulated threads/clock under a seeded schedule vs run() sequentially; non-trivial = >= 2 context switches (HMC: any); distinct = hash of (schedule, events, parameters)"
+        "real MH/Gibbs/HMC/NUTS samplers; the 14 (sampler, element type, backend) kinds are visited in turn by run index; run_progress (1 in 3: on a sampler that has already run) on simulated threads/clock under a seeded schedule vs run() sequentially; non-trivial = >= 2 context switches (HMC: any); distinct = hash of (schedule, events, parameters)"
     }
     fn components(&self) -> Value {
         json!({"real": ["ChainRunner::run_progress (MH, Gibbs)", "NUTS::run_progress / NUTSChain::run_progress", "HMC::run_progress", "MultiChainTracker", "RunStats", "burn NdArray<f32>/<f64> autodiff"], "stub": ["threads/channels/clock = simulator", "harness-written targets"]})
